@@ -53,23 +53,23 @@ theorem lanczos_breakdown_trim (numIter rem k : Nat) (s : St K n)
     loop ops p amul numIter (rem + 1) k s = (k + 1, (body ops p amul numIter k s).1) := by
   simp [loop, hbrk]
 
-/-- Main invariant, for every budget and size (`2 ≤ min max_iter n`), every non-zero start vector and every
-self-adjoint closure: the call succeeds, returns `1 ≤ count ≤ min max_iter n` columns, and — if no returned
+/-- Main invariant, for every budget and size (`1 ≤ min max_iter n`), every non-zero start vector and every
+self-adjoint closure (code as it is now, `guardsSingle = true`, budget ≥ 1): the call succeeds, returns `1 ≤ count ≤ min max_iter n` columns, and — if no returned
 off-diagonal entry is zero — the returned `q_0 … q_{count-1}` are orthonormal. -/
 theorem lanczos_orthonormal (hs : SqrtLaw ops) (hA : SelfAdj amul) (maxIter : Nat) (v : Vec K n)
-    (hv : fn v ⬝ᵥ fn v ≠ 0) (h2 : 2 ≤ min maxIter n) :
+    (hv : fn v ⬝ᵥ fn v ≠ 0) (hg : p.guardsSingle = true) (h1 : 1 ≤ min maxIter n) :
     ∃ o, lanczosTridiag ops p amul maxIter v = .ok o ∧ 1 ≤ o.count ∧ o.count ≤ min maxIter n ∧
       (BetaOK (o.count - 1) o.st →
         ∀ i j, i < o.count → j < o.count → Qf o.st i ⬝ᵥ Qf o.st j = if i = j then 1 else 0) := by
-  obtain ⟨o, ho, h1, h3, _, hd⟩ := lanczos_ok (p := p) hs hA maxIter v hv h2
+  obtain ⟨o, ho, h1, h3, _, hd⟩ := lanczos_ok hs hA hg maxIter v hv h1
   exact ⟨o, ho, h1, h3, fun hb i j hi hj => (hd hb).orth i j (by omega) (by omega)⟩
 
 /-- Matrix form of orthonormality: `QᵀQ = I` for the returned `n × count` matrix. -/
 theorem lanczos_QtQ (hs : SqrtLaw ops) (hA : SelfAdj amul) (maxIter : Nat) (v : Vec K n)
-    (hv : fn v ⬝ᵥ fn v ≠ 0) (h2 : 2 ≤ min maxIter n) :
+    (hv : fn v ⬝ᵥ fn v ≠ 0) (hg : p.guardsSingle = true) (h1 : 1 ≤ min maxIter n) :
     ∃ o, lanczosTridiag ops p amul maxIter v = .ok o ∧
       (BetaOK (o.count - 1) o.st → (Matrix.of o.Q)ᵀ * Matrix.of o.Q = 1) := by
-  obtain ⟨o, ho, h1, h3, horth⟩ := lanczos_orthonormal (p := p) hs hA maxIter v hv h2
+  obtain ⟨o, ho, h1, h3, horth⟩ := lanczos_orthonormal hs hA maxIter v hv hg h1
   refine ⟨o, ho, fun hb => ?_⟩
   ext i j
   have := horth hb i.1 j.1 i.2 j.2
@@ -81,12 +81,12 @@ theorem lanczos_QtQ (hs : SqrtLaw ops) (hA : SelfAdj amul) (maxIter : Nat) (v : 
 `A q_j = β_{j-1} q_{j-1} + α_j q_j + β_j q_{j+1}` with the entries of the returned `T` — i.e.
 `A Q − Q T` vanishes outside its last column. -/
 theorem lanczos_recurrence (hs : SqrtLaw ops) (hA : SelfAdj amul) (maxIter : Nat) (v : Vec K n)
-    (hv : fn v ⬝ᵥ fn v ≠ 0) (h2 : 2 ≤ min maxIter n) :
+    (hv : fn v ⬝ᵥ fn v ≠ 0) (hg : p.guardsSingle = true) (h1 : 1 ≤ min maxIter n) :
     ∃ o, lanczosTridiag ops p amul maxIter v = .ok o ∧
       (BetaOK (o.count - 1) o.st → ∀ j, j + 1 < o.count →
         AQf amul o.st j = (if j = 0 then 0 else Tf o.st j (j - 1) • Qf o.st (j - 1)) + Tf o.st j j • Qf o.st j
           + Tf o.st j (j + 1) • Qf o.st (j + 1)) := by
-  obtain ⟨o, ho, h1, h3, _, hd⟩ := lanczos_ok (p := p) hs hA maxIter v hv h2
+  obtain ⟨o, ho, h1, h3, _, hd⟩ := lanczos_ok hs hA hg maxIter v hv h1
   exact ⟨o, ho, fun hb j hj => (hd hb).recur j (by omega)⟩
 
 /-- Projection lemma on a finished state: `q_i · A q_j = T[i,j]` for all kept `i, j`. -/
@@ -130,44 +130,61 @@ theorem done_projection (hA : SelfAdj amul) {k : Nat} {s : St K n} (hT : TStruct
 /-- `QᵀAQ = T`: every entry of the returned tridiagonal matrix is the corresponding entry of the projection
 of the operator onto the returned basis. -/
 theorem lanczos_projection (hs : SqrtLaw ops) (hA : SelfAdj amul) (maxIter : Nat) (v : Vec K n)
-    (hv : fn v ⬝ᵥ fn v ≠ 0) (h2 : 2 ≤ min maxIter n) :
+    (hv : fn v ⬝ᵥ fn v ≠ 0) (hg : p.guardsSingle = true) (h1 : 1 ≤ min maxIter n) :
     ∃ o, lanczosTridiag ops p amul maxIter v = .ok o ∧
       (BetaOK (o.count - 1) o.st →
         ∀ i j, i < o.count → j < o.count → Qf o.st i ⬝ᵥ AQf amul o.st j = Tf o.st i j) := by
-  obtain ⟨o, ho, h1, h3, hT, hd⟩ := lanczos_ok (p := p) hs hA maxIter v hv h2
+  obtain ⟨o, ho, h1, h3, hT, hd⟩ := lanczos_ok hs hA hg maxIter v hv h1
   exact ⟨o, ho, fun hb i j hi hj => done_projection hA hT (hd hb) i j (by omega) (by omega)⟩
 
 /-- The returned `T` is symmetric tridiagonal (as a matrix), unconditionally on the data. -/
 theorem lanczos_T_matrix (hs : SqrtLaw ops) (hA : SelfAdj amul) (maxIter : Nat) (v : Vec K n)
-    (hv : fn v ⬝ᵥ fn v ≠ 0) (h2 : 2 ≤ min maxIter n) :
+    (hv : fn v ⬝ᵥ fn v ≠ 0) (hg : p.guardsSingle = true) (h1 : 1 ≤ min maxIter n) :
     ∃ o, lanczosTridiag ops p amul maxIter v = .ok o ∧ (∀ i j, o.T i j = o.T j i) ∧
       (∀ i j : Fin o.count, i.1 + 1 < j.1 ∨ j.1 + 1 < i.1 → o.T i j = 0) := by
-  obtain ⟨o, ho, _, _, hT, _⟩ := lanczos_ok (p := p) hs hA maxIter v hv h2
+  obtain ⟨o, ho, _, _, hT, _⟩ := lanczos_ok hs hA hg maxIter v hv h1
   exact ⟨o, ho, fun i j => hT.sym i.1 j.1, fun i j h => hT.tri i.1 j.1 h⟩
 
-/-! ### D14: `max_iter = 1` or a 1×1 operator -/
+/-! ### first step: budget of one iteration, 1×1 operators, start vectors that are eigenvectors -/
 
-/-- The code as it is (`guardsSingle = false`): a budget of one iteration — `max_iter = 1` or `n = 1` — ends in
-IndexError (`t_mat[0, 1]` on a 1×1 buffer) for every closure and every start vector. -/
-theorem lanczos_single_iter_counterexample (hg : p.guardsSingle = false) (maxIter : Nat) (v : Vec K n)
-    (h1 : min maxIter n = 1) : lanczosTridiag ops p amul maxIter v = .error .indexError := by
-  simp [lanczosTridiag, h1, hg]
-
-/-- With the guard of notes/C09_fix_1.diff (`guardsSingle = true`) the same call returns the single column
-`q_0 = v/‖v‖` (unit norm) and `T = [q_0·A q_0]`. -/
+/-- Code as it is now: with a budget of one iteration (`max_iter = 1` or a 1×1 operator) the call returns the
+single column `q_0 = v/‖v‖` (unit norm) and `T = [q_0·A q_0]`, for every closure and non-zero start vector. -/
 theorem lanczos_single_iter_fixed (hs : SqrtLaw ops) (hg : p.guardsSingle = true) (maxIter : Nat) (v : Vec K n)
     (hv : fn v ⬝ᵥ fn v ≠ 0) (h1 : min maxIter n = 1) :
     ∃ o, lanczosTridiag ops p amul maxIter v = .ok o ∧ o.count = 1 ∧
       Qf o.st 0 ⬝ᵥ Qf o.st 0 = 1 ∧ Tf o.st 0 0 = Qf o.st 0 ⬝ᵥ AQf amul o.st 0 := by
-  have hne : ops.sqrt (fn v ⬝ᵥ fn v) ≠ 0 := by
-    intro h0
-    have := hs.mul_self _ (dot_self_nonneg (fn v))
-    rw [h0, mul_zero] at this
-    exact hv this.symm
-  refine ⟨_, by simp only [lanczosTridiag, h1, hg]; rfl, rfl, ?_, ?_⟩
-  · have := unit_of_norm hs (fn v) hne
-    simpa [Qf, Out.st, init0, norm, dot_eq] using this
-  · simp [Tf, Qf, AQf, Out.st, init0, dot_eq, Fam.const]
+  have hd := init0_done (amul := amul) (numIter := min maxIter n) hs v hv
+  refine ⟨{ count := 1, q := (init0 ops amul (min maxIter n) v).1.q, t := (init0 ops amul (min maxIter n) v).1.t,
+            passes := 0 }, ?_, rfl, ?_, hd.alpha⟩
+  · unfold lanczosTridiag
+    simp [h1, hg]
+  · have h := hd.orth 0 0 le_rfl le_rfl
+    rw [if_pos rfl] at h
+    exact h
+
+/-- Code as it is now: if `β_0 = ‖A q_0 − α_0 q_0‖` is not above the breakdown threshold (the start vector is an
+eigenvector up to the threshold; includes `A = c·I` and the zero operator) the call returns the single column `q_0`
+(unit norm) and `T = [q_0·A q_0]` instead of dividing by `β_0`. -/
+theorem lanczos_eigenvector_start (hs : SqrtLaw ops) (hg : p.guardsSingle = true) (maxIter : Nat) (v : Vec K n)
+    (hv : fn v ⬝ᵥ fn v ≠ 0) (h1 : 1 ≤ min maxIter n)
+    (hb : ops.gt (ops.abs (init0 ops amul (min maxIter n) v).2.2) p.breakTol = false) :
+    ∃ o, lanczosTridiag ops p amul maxIter v = .ok o ∧ o.count = 1 ∧
+      Qf o.st 0 ⬝ᵥ Qf o.st 0 = 1 ∧ Tf o.st 0 0 = Qf o.st 0 ⬝ᵥ AQf amul o.st 0 := by
+  have hd := init0_done (amul := amul) (numIter := min maxIter n) hs v hv
+  refine ⟨{ count := 1, q := (init0 ops amul (min maxIter n) v).1.q, t := (init0 ops amul (min maxIter n) v).1.t,
+            passes := 0 }, ?_, rfl, ?_, hd.alpha⟩
+  · unfold lanczosTridiag
+    simp [show ¬ min maxIter n = 0 by omega, hg, hb]
+  · have h := hd.orth 0 0 le_rfl le_rfl
+    rw [if_pos rfl] at h
+    exact h
+
+/-- PREVIOUS code (before commit c712633, `guardsSingle = false`; kept as the record of defect D14): a budget of one
+iteration — `max_iter = 1` or `n = 1` — ended in IndexError (`t_mat[0, 1]` on a 1×1 buffer) for every closure and
+every start vector. -/
+theorem lanczos_index_error_before_fix_counterexample (hg : p.guardsSingle = false) (maxIter : Nat) (v : Vec K n)
+    (h1 : min maxIter n = 1) : lanczosTridiag ops p amul maxIter v = .error .indexError := by
+  simp [lanczosTridiag, h1, hg]
 
 /-! ### post-processing (`lanczos_tridiag_to_diag`, roots, inverse roots, full dimension) -/
 
@@ -218,7 +235,8 @@ theorem lanczos_full_root (hsq : ∀ x : K, 0 ≤ x → ops.sqrt x * ops.sqrt x 
 /-- The literals and comparison shapes the model hard-wires are the ones in the working tree:
 `tol = 1e-5`, `range(10)`, `beta_curr.abs() > 1e-6`, `inner_products > tol` (no absolute value), the
 `k + 1 < num_iter` guard, `num_iter = min(max_iter, n)`, `range(1, num_iter)`, trimming to `k + 1`,
-`evals.ge(0)` / fill value 1, tridiagonal jitter `1e-6`. -/
+`evals.ge(0)` / fill value 1, tridiagonal jitter `1e-6`, and the guard of the first step
+(`num_iter > 1 and torch.sum(beta_0.abs() > 1e-6) > 0`, same literal as the break test). -/
 theorem generated_constants :
     Generated.C09.tol = 1 / 100000 ∧ Generated.C09.extra = 10 ∧ Generated.C09.extraFound = true ∧
     Generated.C09.breakTol = 1 / 1000000 ∧ Generated.C09.breakLhs = "beta_curr.abs()" ∧
@@ -228,7 +246,8 @@ theorem generated_constants :
     Generated.C09.numIter = "min(max_iter, matrix_shape[-1])" ∧ Generated.C09.loopIter = "range(1, num_iter)" ∧
     Generated.C09.reorthGuard = "k + 1 < num_iter" ∧ Generated.C09.trim = "num_iter = k + 1" ∧
     Generated.C09.mask = "evals.ge(0)" ∧ Generated.C09.maskFill = 1 ∧
-    Generated.C09.tridiagonalJitter = 1 / 1000000 := by
+    Generated.C09.tridiagonalJitter = 1 / 1000000 ∧ Generated.C09.guardsSingle = true ∧
+    Generated.C09.firstGuard = "num_iter > 1 and torch.sum(beta_0.abs() > 1e-06) > 0" := by
   decide +kernel
 
 /-- The statements of the loop body, of the re-orthogonalisation block and of the extra-pass loop are the ones
